@@ -282,12 +282,12 @@ def run(tier: str) -> int:
     wd = Workdir()
     counts = {"accept-ok": 0, "reject-ok": 0, "merge-ok": 0, "merge-rejected": 0}
     try:
-        widths = [1, 2, 3] if tier == "quick" else [1, 2, 3, 4]
+        widths = [1, 2, 3] if tier == "quick" else [1, 2, 3, 4, 5, 6]
         forms = list(FORMS)
         acc, rej = pair_cells(widths, forms)
         a2, r2 = literal_cells(widths)
         a3, r3 = part_cells([2, 3])
-        a4, r4 = view_cells([2, 3] if tier == "quick" else [2, 3, 4])
+        a4, r4 = view_cells([2, 3] if tier == "quick" else [2, 3, 4, 5])
         a5, r5, m5 = literal_form_cells(widths)
         acc, rej = acc + a2 + a3 + a4 + a5, rej + r2 + r3 + r4 + r5
         merges = merge_cells([2, 3]) + m5
